@@ -8,8 +8,9 @@
    list of events it hands to Client.Send, in order; the default repliers are
    registered with SetBg, i.e. they run in goroutines of their own, so the order
    between the outputs of different handlers is not an observable (the default table
-   never produces more than one).  No proofs here. *)
-Require Import Bytes Names.
+   never produces more than one).  The registration side (parseCMD, Set, SetBg, Clear,
+   ClearAll) is at the end.  No proofs here. *)
+Require Import Bytes Names GoUpperAscii.
 
 (* ---- events ---------------------------------------------------------- *)
 
@@ -94,6 +95,15 @@ Definition send_ctcp_reply (target ctcp_type message : str) : res event :=
   match encode_ctcp_raw ctcp_type message with
   | [] => Panic
   | out => Ok (notice target out)
+  end.
+
+(* Commands.SendCTCP: the request side, a PRIVMSG; same panic *)
+Definition message (target msg : str) : event := mk_event None PRIVMSG [target; msg].
+
+Definition send_ctcp (target ctcp_type msg : str) : res event :=
+  match encode_ctcp_raw ctcp_type msg with
+  | [] => Panic
+  | out => Ok (message target out)
   end.
 
 (* ---- the default repliers -------------------------------------------- *)
@@ -200,3 +210,53 @@ Definition ctcp_stage (t : table) (e : event) : res (list event) :=
   | None => Ok []
   | Some c => ctcp_call t c
   end.
+
+(* ---- registering handlers: parseCMD, Set/SetBg, Clear, ClearAll ------- *)
+
+(* parseCMD: "*" stays; otherwise strings.ToUpper, then every byte must be A-Z / 0-9;
+   "" means invalid (and is also what the empty name gives) *)
+Definition parse_cmd (cmd : str) : str :=
+  if streqb cmd ctcp_wildcard then ctcp_wildcard else
+  match upper_ascii_img cmd with
+  | Some u => if forallb tag_byte_ok u then u else []
+  | None => []
+  end.
+
+(* the handlers map as an association list with unique keys *)
+Fixpoint table_remove (k : str) (t : table) : table :=
+  match t with
+  | [] => []
+  | (k', h) :: r => if streqb k' k then table_remove k r else (k', h) :: table_remove k r
+  end.
+
+(* Set; SetBg stores a wrapper that starts the handler in a goroutine of its own: same
+   outputs, their order relative to other handlers' outputs is not fixed *)
+Definition table_set (t : table) (cmd : str) (h : handler) : table :=
+  match parse_cmd cmd with
+  | [] => t
+  | k => (k, h) :: table_remove k t
+  end.
+
+Definition table_clear (t : table) (cmd : str) : table :=
+  match parse_cmd cmd with
+  | [] => t
+  | k => table_remove k t
+  end.
+
+(* ClearAll: empty map, then addDefaultHandlers *)
+Definition table_clear_all (v : env) : table := default_table v.
+
+Inductive table_op :=
+| OpSet (cmd : str) (h : handler)
+| OpClear (cmd : str)
+| OpClearAll.
+
+Definition apply_op (v : env) (t : table) (o : table_op) : table :=
+  match o with
+  | OpSet cmd h => table_set t cmd h
+  | OpClear cmd => table_clear t cmd
+  | OpClearAll => table_clear_all v
+  end.
+
+Definition apply_ops (v : env) (t : table) (ops : list table_op) : table :=
+  fold_left (apply_op v) ops t.
